@@ -291,6 +291,7 @@ func init() {
 			per = 30
 		}
 		cuts := 0
+		usedRecv := map[int]any{}
 		g.maxList = 3
 		for _, v := range canonValues(g, per) {
 			r := goEnc(v, nil, BufMode{})
@@ -312,6 +313,21 @@ func init() {
 					m = BufMode{Spare: len(w) - k, Stale: true}
 				}
 				d := corrDec(o, v.Ty, w[:k], m)
+				if d.Class != "ok" && k%5 == 2 {
+					// the same prefix into a receiver that holds an earlier, different message of this type
+					if usedRecv[v.Ty] == nil {
+						other := goEnc(g.msg(v.Ty, true, 0), nil, BufMode{})
+						usedRecv[v.Ty] = typeCtors[v.Ty]()
+						if other.Class == "ok" {
+							goDecInto(usedRecv[v.Ty], other.Appended, BufMode{}, false)
+						}
+					}
+					line := fmt.Sprintf("dec %d %s", v.Ty, hexOf(w[:k]))
+					begin(line)
+					d = goDecInto(usedRecv[v.Ty], w[:k], m, false)
+					begin("")
+					o.emit(line, d.Line(), fmt.Sprintf("cutused:%d:%s", v.Ty, d.Class), true)
+				}
 				if d.Class == "ok" {
 					o.violate(Violation{Property: "C11", Kind: "direct", What: fmt.Sprintf("a strict prefix (%d of %d bytes) decoded successfully; buffer %s", k, len(w), m),
 						Case: fmt.Sprintf("dec %d %s", v.Ty, hexOf(w[:k])), Key: "prefix:" + tname(v.Ty)})
